@@ -19,7 +19,90 @@ fn ok() -> Script {
     s
 }
 
+/// Redirect family: the proxy is (re)selected for the URL of *each* request, so a redirect that
+/// crosses the no-proxy boundary must change peer and target form.
+fn redirect_family(g: &mut G, ctx: &RunCtx) -> RunReport {
+    let no_proxy: Option<&str> = *g.pick(&[Some("origin.test"), Some("other.test"), None]);
+    let status = *g.pick(&[301u16, 302, 307]);
+    let sim = Sim::new(ctx.sim_config());
+    let seen_direct = Arc::new(Mutex::new(Seen::default()));
+    let seen_proxy = Arc::new(Mutex::new(Seen::default()));
+    let ips: [(&str, &str); 3] = [("origin.test", "10.0.0.1"), ("other.test", "10.0.0.2"), ("proxy.test", "10.0.0.9")];
+    for (h, ip) in ips {
+        sim.add_host(h, vec![ip.parse().unwrap()]);
+    }
+    let router = move |r: &crate::httpref::ParsedRequest, _c: usize| -> Script {
+        let mut s = Script::default();
+        if r.target.ends_with("/start") {
+            s.acts.push(Act::Send(format!("HTTP/1.1 {} Moved\r\nLocation: http://other.test/next\r\nContent-Length: 0\r\n\r\n", status).into_bytes()));
+        } else {
+            s.acts.push(Act::Send(b"HTTP/1.1 200 OK\r\nContent-Length: 2\r\n\r\nok".to_vec()));
+        }
+        s.acts.push(Act::Fin);
+        s
+    };
+    let lat = ConnectBehaviour::Accept { latency_ns: NS_PER_MS };
+    for (ip, port, seen) in [("10.0.0.1", 80u16, seen_direct.clone()), ("10.0.0.2", 80, seen_direct.clone()), ("10.0.0.9", 3128, seen_proxy.clone())] {
+        let ipa: IpAddr = ip.parse().unwrap();
+        sim.add_listener(ipa, port, lat, Some(Box::new(move |_i| Box::new(HttpPeer::new(Arc::new(router), seen.clone())))));
+    }
+    let out = sim.run(|| {
+        let mut pb = attohttpc::ProxySettings::builder().http_proxy(url::Url::parse("http://proxy.test:3128").unwrap());
+        if let Some(n) = no_proxy {
+            pb = pb.add_no_proxy_host(n);
+        }
+        match attohttpc::get("http://origin.test/start").proxy_settings(pb.build()).send() {
+            Ok(r) => Ok(r.status().as_u16()),
+            Err(e) => Err(err_kind(&e)),
+        }
+    });
+    let mut stats = Stats::default();
+    stats.absorb(&out.history);
+    let verdict = (|| -> Verdict {
+        match &out.result {
+            None => return violation("hang", "torn down"),
+            Some(Err(m)) => return violation("panic", m.clone()),
+            Some(Ok(Err(e))) => return violation(format!("redirect-family-failed:{}", e), format!("send failed with {} (no_proxy={:?})", e, no_proxy)),
+            Some(Ok(Ok(_))) => {}
+        }
+        let hops = [("origin.test", "10.0.0.1", "/start"), ("other.test", "10.0.0.2", "/next")];
+        if out.history.conns.len() != 2 {
+            return violation("redirect-family-hops", format!("{} connections", out.history.conns.len()));
+        }
+        for (i, (host, ip, path)) in hops.iter().enumerate() {
+            let proxied = no_proxy != Some(*host);
+            let want = if proxied { "10.0.0.9:3128".to_string() } else { format!("{}:80", ip) };
+            let c = &out.history.conns[i];
+            if c.addr.to_string() != want {
+                return violation(
+                    format!("wrong-peer-dialled:redirect-hop{}:{}", i, if proxied { "should-use-proxy" } else { "should-go-direct" }),
+                    format!("request {} for http://{}{} dialled {}, expected {} (no_proxy={:?})", i, host, path, c.addr, want, no_proxy),
+                );
+            }
+            let bytes = c.client_bytes();
+            let line = String::from_utf8_lossy(bytes.split(|b| *b == b'\r').next().unwrap_or(b"")).into_owned();
+            let want_target = if proxied { format!("http://{}{}", host, path) } else { path.to_string() };
+            if line != format!("GET {} HTTP/1.1", want_target) {
+                return violation(format!("target-form:redirect-hop{}", i), format!("request line {:?}, expected target {:?}", line, want_target));
+            }
+        }
+        Verdict::Pass
+    })();
+    RunReport {
+        verdict,
+        shape: format!("redirect-family/np={:?}/{}", no_proxy, status),
+        nontrivial: true,
+        stats,
+        sched_tape: out.sched_tape,
+        describe: if ctx.describe { format!("redirect family: http://origin.test/start -> {} -> http://other.test/next, http proxy, no_proxy={:?}", status, no_proxy) } else { String::new() },
+    }
+}
+
 pub fn scenario(g: &mut G, ctx: &RunCtx) -> RunReport {
+    if g.chance(1, 8) {
+        g.probe("redirect-crosses-no-proxy-boundary");
+        return redirect_family(g, ctx);
+    }
     let https = g.chance(1, 2);
     let (host, ip): (&str, &str) = *g.pick(&[("origin.test", "10.0.0.1"), ("10.0.0.1", "10.0.0.1"), ("[2001:db8::1]", "2001:db8::1"), ("ORIGIN.test", "10.0.0.1")]);
     let default_port = if https { 443u16 } else { 80 };
